@@ -573,6 +573,47 @@ func checkNameAndOverwrite(r *Run, p *Prog) {
 			}
 			r.ObPath("C15.R5.names", "validateChannelNames accepts a batch only after the repeated-name pass", p.Position(fn.Pos()), path == nil,
 				"a nil return is reachable before the pass over the request's own names: a batch that repeats a name creates two channels with that name", path)
+			// inside the pass: an iteration goes on to the next name only when this one was
+			// not seen before, and only after recording it
+			loopVar := objOf(fn, dup.Value)
+			isCall := func(name string) func(atom ast.Expr, val bool) bool {
+				return func(atom ast.Expr, val bool) bool {
+					call, ok := ast.Unparen(atom).(*ast.CallExpr)
+					if !ok || val {
+						return false
+					}
+					f := CalleeFunc(fn, call)
+					return f != nil && f.Name() == name && len(call.Args) == 1 && objOf(fn, call.Args[0]) == loopVar
+				}
+			}
+			unseen := c.EdgesEstablishing(isCall("Contains"))
+			isAdd := func(n ast.Node) bool {
+				return nodeHasCall(fn, n, func(o types.Object, call *ast.CallExpr) bool {
+					f, ok := o.(*types.Func)
+					return ok && f.Name() == "Add" && len(call.Args) == 1 && objOf(fn, call.Args[0]) == loopVar
+				})
+			}
+			for _, b := range c.G.Blocks {
+				if b.Stmt != ast.Stmt(dup) || b.Kind.String() != "RangeBody" {
+					continue
+				}
+				for _, chk := range []struct {
+					name  string
+					edges map[edge]bool
+					stop  func(ast.Node) bool
+				}{{"the name was not seen before", unseen, nil}, {"the name was recorded", nil, isAdd}} {
+					q2, vis2 := c.ReachAvoiding([]Point{{b, -1}}, chk.edges, chk.stop)
+					var p2 []string
+					for pt := range vis2 {
+						if pt.B.Stmt == ast.Stmt(dup) && (pt.B.Kind.String() == "RangeLoop" || pt.B.Kind.String() == "RangeDone") {
+							p2 = q2.PathTo(pt)
+						}
+					}
+					okChk := p2 == nil && (chk.edges == nil || len(chk.edges) > 0)
+					r.ObPath("C15.R5.names", "the repeated-name pass moves on to the next name only when "+chk.name, posOf(p, dup), okChk,
+						"a repeated name can pass the request's own duplicate test", p2)
+				}
+			}
 		}
 	}
 	// (b) paired appends in deleteOverwritten
